@@ -154,12 +154,8 @@ class Parser:
                     self.skip_type(["="])
                 self.eat("=")
                 e = self.expr()
-                tried = False
-                if self.peek() == "?":
-                    self.eat()
-                    tried = True
                 self.eat(";")
-                stmts.append(("let", pat, e, tried))
+                stmts.append(("let", pat, e))
                 continue
             if tok == "return":
                 self.eat()
@@ -262,11 +258,7 @@ class Parser:
         if self.peek() == "self" and self.peek(1) == "." and self.peek(3) == "." and self.peek(4) == "take":
             self.eat(); self.eat(); f = self.eat(); self.eat("."); self.eat("take"); self.eat("("); self.eat(")")
             return ("take", f)
-        e = self.postfix()
-        if self.peek() == "?":
-            self.eat()
-            return ("try", e)
-        return ("plain", e)
+        return ("plain", self.postfix())
 
     def pattern(self):
         p = self.pattern1()
@@ -325,6 +317,15 @@ class Parser:
         self.eat("(")
         out = []
         while self.peek() != ")":
+            if self.peek() == "|":
+                # a closure |pat| expr (only as the argument of map_err)
+                self.eat()
+                pat = self.pattern1()
+                self.eat("|")
+                out.append(("closure", pat, self.expr()))
+                if self.peek() == ",":
+                    self.eat()
+                continue
             out.append(self.expr())
             if self.peek() == ",":
                 self.eat()
@@ -346,6 +347,9 @@ class Parser:
                 ty = self.eat()
                 if ty not in ("usize", "u64"):
                     raise Fail("cast to %s" % ty)
+            elif self.peek() == "?":
+                self.eat()
+                e = ("try", e)
             else:
                 return e
 
@@ -399,9 +403,12 @@ def const_value(src, name):
 
 
 class Gen:
-    def __init__(self, src, calls, threaded, fname, cname):
+    def __init__(self, src, calls, threaded, fname, cname, chans=(), mutcalls=()):
         # threaded: the names whose final value is returned beside the result (self if &mut, effect objects)
+        # chans: fields of self that are channel ends (self.tx.send(..), self.rx.recv()): stateful externals
+        # mutcalls: translated functions that take &mut self and nothing else threaded (they return (self, v))
         self.src, self.calls, self.threaded, self.fname, self.cname = src, calls, threaded, fname, cname
+        self.chans, self.mutcalls = set(chans), set(mutcalls)
         self.effects = [t for t in threaded if t != "self"]
         self.n = 0
         self.recursive = False
@@ -459,6 +466,73 @@ class Gen:
             return "(ext %s [%s])" % (cstr(m), "; ".join([self.e(recv, env)] + [self.e(a, env) for a in args]))
         raise Fail("expression %r" % (x,))
 
+    def effectful(self, x):
+        """does evaluating x change self (a call of a translated &mut self function, an operation on a
+        channel end of self), or return early (`?`)?"""
+        k = x[0]
+        if k == "try":
+            return True
+        if k == "method":
+            recv, m, args = x[1], x[2], x[3]
+            if recv == ("var", "self") and m in self.calls and self.calls[m] in self.mutcalls:
+                return True
+            if recv[0] == "field" and recv[1] == ("var", "self") and recv[2] in self.chans:
+                return True
+            if m == "map_err":
+                return True
+            return self.effectful(recv) or any(self.effectful(a) for a in args if a[0] != "closure")
+        if k in ("call", "ctor"):
+            return any(self.effectful(a) for a in x[2])
+        if k == "field":
+            return self.effectful(x[1])
+        return False
+
+    def ev(self, x, env, k):
+        """code for evaluating x, then k(env', code of its value); env' has the current name of self"""
+        if not self.effectful(x):
+            return k(env, self.e(x, env))
+        kind = x[0]
+        if kind == "try":
+            def after(env2, v):
+                r, okv, err = self.fresh("tried"), self.fresh("okval"), self.fresh("err")
+                return "let %s := %s in\nmatch %s with\n| VC \"Err\" [%s] => %s\n| VC \"Ok\" [%s] =>\n%s\n| _ => %s\nend" % (
+                    r, v, r, err, self.ret("(VC \"Err\" [%s])" % err, env2), okv, k(env2, okv), self.stuck(env2))
+            return self.ev(x[1], env, after)
+        if kind == "method":
+            recv, m, args = x[1], x[2], x[3]
+            if m == "map_err" and len(args) == 1 and args[0][0] == "closure":
+                _, cpat, cbody = args[0]
+                if cpat[0] != "wild":
+                    raise Fail("map_err closure that uses its argument")
+                def after(env2, v):
+                    r, okv, res = self.fresh("res"), self.fresh("okval"), self.fresh("mapped")
+                    # Ok(v) stays; on Err(_) the closure runs (it may change self)
+                    joined = k  # both branches continue with k
+                    return ("let %s := %s in\nmatch %s with\n| VC \"Ok\" [%s] =>\n%s\n| VC \"Err\" [_] =>\n%s\n| _ => %s\nend" % (
+                        r, v, r, okv, k(env2, "(VC \"Ok\" [%s])" % okv),
+                        self.ev(cbody, env2, lambda env3, e3: k(env3, "(VC \"Err\" [%s])" % e3)), self.stuck(env2)))
+                return self.ev(recv, env, after)
+            if recv == ("var", "self") and m in self.calls and self.calls[m] in self.mutcalls:
+                if "self" not in self.threaded:
+                    raise Fail("call of a &mut self function from one that does not take &mut self")
+                if any(self.effectful(a) for a in args):
+                    raise Fail("effectful argument")
+                n, v = self.fresh("self"), self.fresh("v")
+                env2 = dict(env)
+                env2["self"] = n
+                return "let '(%s, %s) := %s %s in\n%s" % (n, v, self.calls[m], " ".join([env["self"]] + [self.e(a, env) for a in args]), k(env2, v))
+            if recv[0] == "field" and recv[1] == ("var", "self") and recv[2] in self.chans:
+                if "self" not in self.threaded:
+                    raise Fail("channel operation in a function that does not take &mut self")
+                if any(self.effectful(a) for a in args):
+                    raise Fail("effectful argument")
+                n, v = self.fresh("self"), self.fresh("v")
+                env2 = dict(env)
+                env2["self"] = n
+                return "let '(%s, %s) := ext_st %s [%s] %s in\n%s" % (
+                    n, v, cstr("%s.%s" % (recv[2], m)), "; ".join(self.e(a, env) for a in args), env["self"], k(env2, v))
+        raise Fail("effectful expression in an unsupported position: %r" % (x,))
+
     def ret(self, v, env):
         parts = [env[t] for t in self.threaded] + [v]
         return "(%s)" % ", ".join(parts) if len(parts) > 1 else v
@@ -478,15 +552,12 @@ class Gen:
         cont = lambda env2: self.stmts(rest, tail, env2, k)
         kind = s[0]
         if kind == "let":
-            _, pat, ex, tried = s
-            v = self.fresh("v")
-            code = "let %s := %s in\n" % (v, self.e(ex, env))
-            if tried:
-                okv, err = self.fresh("okval"), self.fresh("err")
-                return code + "match %s with\n| VC \"Err\" [%s] => %s\n| VC \"Ok\" [%s] =>\n%s\n| _ => %s\nend" % (
-                    v, err, self.ret("(VC \"Err\" [%s])" % err, env), okv,
-                    self.pat(pat, okv, env, cont, self.stuck(env)), self.stuck(env))
-            return code + self.pat(pat, v, env, cont, self.stuck(env))
+            _, pat, ex = s
+
+            def bind(env2, val):
+                v = self.fresh("v")
+                return "let %s := %s in\n" % (v, val) + self.pat(pat, v, env2, cont, self.stuck(env2))
+            return self.ev(ex, env, bind)
         if kind == "return":
             ex = s[1]
             if ex[0] == "method" and ex[1] == ("var", "self") and ex[2] == self.fname:
@@ -495,7 +566,7 @@ class Gen:
                 args = ex[3]
                 names = [a[1] if a[0] == "var" else None for a in args]
                 return "(%s fuel_ %s)" % (self.cname, " ".join([env["self"]] + [self.e(a, env) for a in args]))
-            return self.ret(self.e(ex, env), env)
+            return self.ev(ex, env, lambda env2, v: self.ret(v, env2))
         if kind == "setself":
             if "self" not in self.threaded:
                 raise Fail("assignment to *self in a function that does not take &mut self")
@@ -527,6 +598,8 @@ class Gen:
                 code = "let %s := v_log %s [%s] %s in\n" % (n, cstr(ex[2]), "; ".join(self.e(a, env) for a in ex[3]), env[obj])
                 env[obj] = n
                 return code + cont(env)
+            if self.effectful(ex):
+                return self.ev(ex, env, lambda env2, _v: cont(env2))
             raise Fail("expression statement %r" % (ex,))
         if kind == "iflet":
             _, pat, ex, body = s
@@ -539,7 +612,7 @@ class Gen:
 
     def tail(self, t, env, k):
         if t[0] == "value":
-            return k(env, self.e(t[1], env))
+            return self.ev(t[1], env, k)
         if t[0] == "ifeq":
             return "(if v_eqb %s %s then\n%s\nelse\n%s)" % (self.e(t[1], env), self.e(t[2], env), self.block(t[3], env, k), self.block(t[4], env, k))
         if t[0] == "match":
@@ -557,16 +630,10 @@ class Gen:
             pre = "let %s := v_field %s %s in\nlet %s := v_set %s (VC \"None\" []) %s in\n" % (v, cstr(sc[1]), env["self"], n, cstr(sc[1]), env["self"])
             env["self"] = n
             return "(" + pre + self.arms(v, t[2], env, k) + ")"
-        if sc[0] == "try":
-            r = self.fresh("tried")
-            v = self.fresh("okval")
-            ex = self.fresh("err")
-            pre = "let %s := %s in\n" % (r, self.e(sc[1], env))
-            return ("(" + pre + "match %s with\n| VC \"Err\" [%s] => %s\n| VC \"Ok\" [%s] =>\n%s\n| _ => %s\nend)" % (
-                r, ex, self.ret("(VC \"Err\" [%s])" % ex, env), v, self.arms(v, t[2], env, k), self.stuck(env)))
-        v = self.fresh("scrut")
-        pre = "let %s := %s in\n" % (v, self.e(sc[1], env))
-        return "(" + pre + self.arms(v, t[2], env, k) + ")"
+        def go(env2, val):
+            v = self.fresh("scrut")
+            return "let %s := %s in\n" % (v, val) + self.arms(v, t[2], env2, k)
+        return "(" + self.ev(sc[1], env, go) + ")"
 
     def arms(self, v, arms, env, k):
         # arms tried in order; the continuation of a failed arm is a thunk bound once
@@ -607,13 +674,15 @@ class Gen:
         raise Fail("pattern %r" % (p,))
 
 
-def translate(src, name, calls, effects):
+def translate(src, name, calls, effects, chans=(), mutcalls=None):
     fn_only = name.split(".")[-1]
     p = Parser(tokenize(find_fn(src, name)), fn_only)
     fname, params, mutself, body = p.fn()
     cname = "gen_" + name.replace(".", "_")
     threaded = (["self"] if mutself else []) + [x for x in params if x in effects]
-    g = Gen(src, calls, threaded, fn_only, cname)
+    if mutcalls is not None and threaded == ["self"]:
+        mutcalls.add(cname)
+    g = Gen(src, calls, threaded, fn_only, cname, chans, mutcalls or ())
     env = {x: x for x in params}
     text = g.block(body, env, lambda env2, v: g.ret(v, env2))
     ty = " * ".join(["val"] * (len(threaded) + 1))
@@ -637,6 +706,9 @@ Variable t_new : list val -> val.
 (* the functions these call that are not translated here (by name, receiver first): the theorems
    state what they assume of them *)
 Variable ext : string -> list val -> val.
+(* operations on the channel ends a handle holds (self.tx.send(m), self.rx.recv()): given the name,
+   the arguments and self, the result and self afterwards *)
+Variable ext_st : string -> list val -> val -> val * val.
 '''
 
 if __name__ == "__main__":
@@ -645,6 +717,8 @@ if __name__ == "__main__":
     fns = [a.rsplit("::", 1) for a in spec["fns"]]
     calls = {m: "gen_" + t.replace(".", "_") for m, t in spec.get("calls", {}).items()}
     effects = spec.get("effects", [])
+    chans = spec.get("channels", [])
+    mutcalls = set()
     out = [HEADER % ", ".join(sorted(set(p for p, _ in fns)))]
     ok = True
     done = set()
@@ -652,7 +726,7 @@ if __name__ == "__main__":
         # a call may only go to a function translated before it
         avail = {m: c for m, c in calls.items() if c in done}
         try:
-            out.append("(* ---- %s :: %s ---- *)\n" % (path, n) + translate(open(path).read(), n, avail, effects))
+            out.append("(* ---- %s :: %s ---- *)\n" % (path, n) + translate(open(path).read(), n, avail, effects, chans, mutcalls))
             done.add("gen_" + n.replace(".", "_"))
         except (Fail, OSError) as ex:
             ok = False
